@@ -29,8 +29,17 @@ def kind_of(out):
 
 def check_strings(ctx, strings, tag):
     items = [(11, 8, enc.tree([rc.chars(s)])) for s in strings]
-    answers = ctx.driver.batch(items)
+    answers = ctx.driver.batch(items, tolerant=True, item_timeout=60)
     for s, ans in zip(strings, answers):
+        if ans == [0, 96]:
+            # the model did not answer within the driver's time limit (deeply nested repetitions): inconclusive;
+            # the implementation-only half of the property (validate and from_regex agree) is still checked
+            ctx.tally("model_timed_out")
+            iv, ic = outcome(lambda: regex.validate(s)), outcome(lambda: NFA.from_regex(s))
+            if (kind_of(iv) == "ok") != (kind_of(ic) == "ok"):
+                ctx.violation(f"regex {s!r}: validate {kind_of(iv)} but from_regex {kind_of(ic)}",
+                              {"kind": "tokens", "regex": s, "tag": tag}, confirmed=True)
+            continue
         mv, mc = enc.dec_res(ans[0]), enc.dec_res(ans[1])
         iv = outcome(lambda: regex.validate(s))
         ic = outcome(lambda: NFA.from_regex(s))
@@ -108,8 +117,11 @@ def check_pairs(ctx, pairs, tag, validate_first=False):
     items = []
     for s1, s2, sigma, r1, r2, known in pairs:
         items.append((11, 6, enc.tree([rc.chars(s1), rc.chars(s2), rc.alpha_arg(sigma)])))
-    answers = ctx.driver.batch(items)
+    answers = ctx.driver.batch(items, tolerant=True, item_timeout=60)
     for (s1, s2, sigma, r1, r2, known), ans in zip(pairs, answers):
+        if ans == [0, 96]:
+            ctx.tally("model_timed_out")
+            continue
         model = [enc.dec_res(a) for a in ans]
         if validate_first:
             # a query after another query: validation of the same expressions first must not change the answers
